@@ -61,9 +61,11 @@ static int unhex(const char* h, char* out) { int n = 0; for (; h[0] && h[1]; h +
 
 /* VERIF_ONSIGNAL="key:1,...": like a tool that flushes what it has when it is told to stop, the command writes a
  * partial first output (in place, not atomically) from its signal handler and exits with the interrupt status */
-static const char* g_sig_out;
+static const char* g_sig_out; static int g_sig_slow;
 static void on_signal(int sig) {
   (void)sig;
+  /* "key:2": a tool that takes its time to wind down before it flushes (ninja has to wait for it before it looks at the outputs) */
+  if (g_sig_slow) { struct timespec ts = {0, 300000000l}; nanosleep(&ts, NULL); }
   if (g_sig_out) { int fd = open(g_sig_out, O_WRONLY | O_CREAT | O_TRUNC, 0644); if (fd >= 0) { if (write(fd, "partial:signal", 14) < 0) {} close(fd); } }
   _exit(130);
 }
@@ -117,7 +119,7 @@ int main(int argc, char** argv) {
     if (!c) { missing = 1; h = fnv(h, "<missing>,", 10); } else { h = fnv(h, c, n); h = fnv(h, ",", 1); free(c); }
   }
   if (envlookup("VERIF_ONSIGNAL", id) && nout) {
-    g_sig_out = outs[0];
+    g_sig_out = outs[0]; g_sig_slow = atoi(envlookup("VERIF_ONSIGNAL", id)) == 2;
     signal(SIGINT, on_signal); signal(SIGTERM, on_signal); signal(SIGHUP, on_signal);
   }
   /* --- delays / rendez-vous */
